@@ -52,6 +52,7 @@ def bridge_self(I: Interp, st: State, prog: Program, fresh_instance: bool = Fals
     otherwise its content is unknown (used for stop())."""
     ci = prog.cls(f"{BRIDGE}:SwitcherBridge")
     ports = ("sym", "ports", ("list", ("int", 1, 65535), "distinct"))
+    ci.require_attrs(["_on_device", "_broadcast_ports", "_is_running", "_transports"], "symbolic bridge")
     transports = st.alloc(HeapObj("dict", None, {}, [], not fresh_instance, "self._transports", False))
     return st.alloc(HeapObj("obj", ci, {
         "_on_device": ("sym", "on_device", "callable"),
